@@ -312,6 +312,19 @@ def r_spawn_site(e, R):
                 (f"while {norm(wl.test)}" if isinstance(wl, ast.While) else f"for ... in {norm(wl.iter)}") if wl is not None else norm(n),
                 "the spawn loop is not guarded by the strict comparison len(workers) < max_workers: the pool can exceed max_workers",
                 e.loc(sf, n))
+        # the size guard is the *only* thing that decides whether a worker is spawned: every caller (submit's top-up, the resize,
+        # the manager's respawn after an idle-timeout exit, at any time including interpreter exit, when pending work is still
+        # finished) relies on the routine topping the pool up whenever it is short
+        if wl is not None:
+            heads = [cn for cn in g.nodes if (cn.kind == "test" and isinstance(wl, ast.While) and cn.ast is wl.test) or
+                     (cn.kind in ("for_iter", "for_init") and cn.ast is wl) or (cn.kind == "join" and cn.tag == "loop-head" and cn.ast is wl)]
+            if not heads:
+                raise AnalysisError("spawn routine: CFG nodes of the spawn loop not found")
+            esc = g.escape_path(g.entry, lambda x: x in heads, use_exc=False)
+            R.check(esc is None, "R-SPAWN-SITE", f"{sf.short}: the spawn loop is reached on every call (nothing but the size guard decides)", sf.short,
+                    "no early return before the spawn loop", "the spawn routine returns early in some state (a flag, interpreter exit, ...): one of its callers -- "
+                    "the manager's respawn of workers that idled out while work is pending -- then silently does nothing and the pending futures never resolve",
+                    e.loc(sf, esc[-1].ast if esc and esc[-1].ast is not None else sf.node), g.fmt_path(esc) if esc else None)
         # one insertion per iteration, after start()
         if wl is not None:
             stmts = [x for x in wl.body]
